@@ -49,3 +49,23 @@ Definition pad_len (n : nat) : nat := (4 - n mod 4) mod 4.
 Definition pack_row (cs pad : list Z) : list Z := pack_codes (cs ++ firstn (pad_len (length cs)) pad).
 Definition encode_bed (rows : list (list Z)) (pads : list (list Z)) : list Z :=
   bed_magic ++ concat (map (fun rp => pack_row (fst rp) (snd rp)) (combine rows pads)).
+
+(* ---- the other layout the format allows: third magic byte 0 = individual-major ("sample-major"):
+        one row of ceil(m/4) bytes per SAMPLE, 2 bits per variant ------------------------------ *)
+Definition transpose (k : nat) (rows : list (list Z)) : list (list Z) :=
+  map (fun c => map (fun row => nth c row 0) rows) (seq 0 k).
+
+(* layout-independent decoder: code matrix variant-major whatever the file's layout *)
+Definition decode_bed_any (bytes : list Z) (n m : nat) : option (list (list Z)) :=
+  match bytes with
+  | a :: b :: c :: body =>
+      if c =? 1 then decode_bed bytes n m
+      else if (a =? 108) && (b =? 27) && (c =? 0) && (Nat.eqb (length body) (n * bytes_per_variant m))
+      then Some (transpose m (map (unpack_row m) (split_rows n (bytes_per_variant m) body)))
+      else None
+  | _ => None
+  end.
+
+(* independent writer for the individual-major layout: rows are per sample *)
+Definition encode_bed_sample_major (rows : list (list Z)) (n : nat) (pads : list (list Z)) : list Z :=
+  [108; 27; 0] ++ concat (map (fun rp => pack_row (fst rp) (snd rp)) (combine (transpose n rows) pads)).
